@@ -5,7 +5,8 @@ import z3
 from pyvc.vals import Val, NONE, I, B, R, Z, ref, fresh, cls_of, ArgPack, PENDING, RUNNING
 from pyvc.verify import Unit, sym_inst, sym_val, user_calls
 from pyvc.symexec import Raise, LoopSpec
-from .base import make_cfg, FIELD_TYPES, INST, OPT, RecordCall
+from pyvc.b_ctrl import role_name
+from .base import make_cfg, FIELD_TYPES, INST, OPT, RecordCall, local, decided
 from .c_retry import _cfg_exec, JOB_FIELDS
 from .c_throttle import global_handler, TrackFuture
 from .c_future import fresh_bool
@@ -40,7 +41,7 @@ def _cfg_pop():
 
     def pop_inv(engine, st, fr, ctx):
         at, i = ctx["src"]["at"], ctx["i"]
-        job = engine.to_val(st, st.envs[fr.eid]["job"])
+        job = engine.to_val(st, local(engine, st, fr, "$param#1", "job"))
         j = z3.Int("j!pop")
         return [("the job is not among the earlier entries", z3.ForAll([j], z3.Implies(z3.And(j >= 0, j < i), z3.Select(at, j) != job)))]
     cfg.loops[("more_executors._impl.retry.RetryExecutor._pop_job", 0)] = LoopSpec(invariant=pop_inv, heap_modifies=[])
@@ -113,8 +114,8 @@ def _cfg_next():
     def inv(engine, st, fr, ctx):
         at, i, n = ctx["src"]["at"], ctx["i"], ctx["n"]
         env = st.envs[fr.eid]
-        now = engine.num(st, env["now"])
-        mj = env["min_job"]
+        now = engine.num(st, local(engine, st, fr, "$call:monotonic", "now"))
+        mj = local(engine, st, fr, "$none#0", "min_job")
         mjt = engine.to_val(st, mj)
         j = z3.Int("j!next")
         body = lambda x: z3.Implies(idle(st, z3.Select(at, x)),
@@ -127,7 +128,7 @@ def _cfg_next():
                            cls_of(Val.id(mjt)) == engine.tag("RetryJob")))),
                 ("R3 at the current position", z3.Implies(i < n, r3(st, z3.Select(at, i))))]
     cfg.loops[("more_executors._impl.retry.RetryExecutor._get_next_job", 0)] = LoopSpec(
-        invariant=inv, heap_modifies=[], local_types={"min_job": OPT(INST("RetryJob"))})
+        invariant=inv, heap_modifies=[], local_types={"$none#0|min_job": OPT(INST("RetryJob"))})
     return cfg
 
 
@@ -216,7 +217,7 @@ def _post_submit_now(engine, st, ctx, out):
     cl = [("the idle job is taken off the queue exactly once", "PC",
            z3.And(z3.BoolVal(len(pops) == 1), pops[0].args[1] == ctx["job"].t if pops else False), ["C05", "C12"])]
     cl.append(("at most one submission to the delegate per hand-over", "PC", z3.BoolVal(len(subs) <= 1), ["C05", "C06"]))
-    saw_done = any(a == "job.future.done()" and b for a, b in st.decisions)
+    saw_done = decided(engine, st, "retry.RetryExecutor._submit_now", "{$param#1|job}.future.done()", True)
     if saw_done:
         cl.append(("a future that is already done (cancelled) is never (re-)submitted to the delegate", "PC", z3.BoolVal(not subs and not apps), ["C06", "C05"]))
         cl.append(("RETRY_TOTAL counts submissions only: nothing is counted for a job that is dropped instead of being retried", "PC", z3.BoolVal(not rtot), ["C20"]))
@@ -270,13 +271,13 @@ def _cfg_cancel():
 
     def inv(engine, st, fr, ctx):
         at, i = ctx["src"]["at"], ctx["i"]
-        fut = engine.to_val(st, st.envs[fr.eid]["future"])
-        fj = st.envs[fr.eid]["found_job"]
+        fut = engine.to_val(st, local(engine, st, fr, "$param#1", "future"))
+        fj = local(engine, st, fr, "$none#0", "found_job")
         j = z3.Int("j!canc")
         return [("no earlier job belongs to this future", z3.ForAll([j], z3.Implies(z3.And(j >= 0, j < i), st.get("future", Val.id(z3.Select(at, j))) != fut))),
                 ("nothing found yet", z3.BoolVal(fj is None) if not isinstance(fj, Z) else Val.is_none(fj.t))]
     cfg.loops[("more_executors._impl.retry.RetryExecutor._cancel", 0)] = LoopSpec(
-        invariant=inv, heap_modifies=[], local_types={"found_job": OPT(INST("RetryJob")), "job": INST("RetryJob")})
+        invariant=inv, heap_modifies=[], local_types={"$none#0|found_job": OPT(INST("RetryJob")), "job": INST("RetryJob")})
     return cfg
 
 
@@ -428,7 +429,7 @@ def _cfg_loop():
         out.append(("an iteration that scans the queue started with the executor alive: neither shut down nor at interpreter exit "
                     "(the submit thread does no further round of work after shutdown)", z3.Not(engine.cfg.flags.now(ctx["head"]))))
         pops = [e for e in events if e.kind == "repo-call" and e.meth.endswith("._pop_job")]
-        stopped = any(a == "job.stop_retry" and b for a, b in st.decisions)
+        stopped = decided(engine, st, "retry._submit_loop", "{$call:_get_next_job|job}.stop_retry", True)
         if stopped:
             res = [e for e in events if e.kind == "resolve" or (e.kind == "repo-call" and e.meth.endswith(".copy_future"))]
             out.append(("a job whose future was asked to cancel is discarded: taken off the queue exactly once (it would be found again for ever otherwise), "
@@ -437,8 +438,8 @@ def _cfg_loop():
         else:
             out.append(("only a discarded job is popped by the loop itself", z3.BoolVal(not pops)))
         # every iteration does exactly one of: discard a cancelled job / hand a due job over / sleep (a loop that does none of them spins)
-        nojob = any(a == "not job" and b for a, b in st.decisions)
-        due = [b for a, b in st.decisions if a == "job.when <= now"]
+        nojob = decided(engine, st, "retry._submit_loop", "not {$call:_get_next_job|job}", True)
+        due = decided(engine, st, "retry._submit_loop", "{$call:_get_next_job|job}.when <= {$call:monotonic|now}")
         if nojob:
             out.append(("nothing queued: the thread sleeps until it is woken (one untimed wait)", z3.BoolVal(len(waits) == 1 and not subs and waits[0][1].args[0] is None)))
         elif not stopped and due and due[-1]:
@@ -456,8 +457,8 @@ def _cfg_loop():
             out.append(("W2: wait comes after the scan, clear directly after wait, nothing is read in between",
                         z3.BoolVal(len(waits) == 1 and len(clears) == 1 and scans and scans[0] < i_w < clears[0] and clears[0] == len(events) - 1)))
             out.append(("the thread holds no lock and no strong reference to its executor - nor to a job (future, callable, arguments) - while it waits",
-                        z3.And(z3.BoolVal(not w.held and st.lookup_env(fr.eid, "executor") is None),
-                               z3.BoolVal(True) if st.lookup_env(fr.eid, "job") is None else Val.is_none(engine.to_val(st, st.envs[st.lookup_env(fr.eid, "job")]["job"])))))
+                        z3.And(z3.BoolVal(not w.held and st.lookup_env(fr.eid, role_name(fr.func.node, "$call:executor_ref", "executor")) is None),
+                               z3.BoolVal(True) if st.lookup_env(fr.eid, role_name(fr.func.node, "$call:_get_next_job", "job")) is None else Val.is_none(engine.to_val(st, local(engine, st, fr, "$call:_get_next_job", "job"))))))
             if tmo is None:
                 out.append(("an untimed wait only when there is no idle job at all", Val.is_none(job)))
             else:
@@ -497,7 +498,7 @@ def _post_loop(engine, st, ctx, out):
     if isinstance(out, Raise):
         cl.append(("the submit thread never dies from an exception of its own (e.g. a lost race with cancel)", "EX", z3.BoolVal(False), ["C18", "C03"]))
     else:
-        gone = any(a == "not executor" and b for a, b in st.decisions)
+        gone = decided(engine, st, "retry._submit_loop", "not {$call:executor_ref|executor}", True)
         cl.append(("the loop ends only when the executor is gone, shut down, or the interpreter exits", "PC",
                    z3.Or(z3.BoolVal(gone), engine.cfg.flags.now(st)), ["C11", "C12"]))
     return cl
